@@ -59,6 +59,10 @@ ASSUMPTIONS = [
     "in the unchanged code and is outside the judged routes; odb.check is not modelled here (C07)",
     "staging for real (dry_run=False, scratch object store) answers every listed path with its own digest also when "
     "several files of one directory have identical contents",
+    "index checkout (index/checkout.py _create_files) writes rows itself through state.save_many: a row writer "
+    "other than hash_file, whose rows the theorem needs truthful (tick_ok of StSave); not modelled in Coq - the stream "
+    "'checkout' checks that obligation on the real code (workspaces with untracked files at target paths, missing "
+    "source objects, copy/hardlink/symlink, update_meta on/off, lazily loaded directory objects, re-checkout, later writes)",
     "hashing is per path: _get_hashes attaches to every path the digest of that path's bytes, whatever the order in "
     "which pool workers are submitted and complete (the model has no pairing of a submission list with a result list)",
     "translated units (Gen/State.v: _checksum field list, State._get, HASH_VERSION, the non-local guards, "
@@ -958,13 +962,52 @@ def gen_history(ctx, big=None):  # noqa: C901, PLR0912, PLR0915
         blk.append({"op": "get_hashes", "route": "build_dir", "alg": "md5", "fs": [], "dry": rng.random() < 0.5})
         return blk
 
+    def link_block():
+        """a symlinked file inside the staged directory whose TARGET undergoes the mutation kinds of a plain file,
+        each time right after the staging walk (dvc stat: fsutils._localfs_info) recorded its row: atomic replace
+        of the target by same-size content with the mtime restored (cp -p / rsync -t: ONLY the inode of the file
+        whose bytes are hashed moves), same-size rewrite in place, touch, replace with a new mtime"""
+        f = rng.randrange(nfiles)
+        alive.add(f)
+        cur[f] = content(f)
+        blk = [{"op": "mklink", "f": f, "c": cur[f]}]
+
+        def stage():
+            r_ = rng.random()
+            if r_ < 0.5:
+                return {"op": "get_hashes", "route": "build_dir", "alg": "md5", "fs": [], "dry": rng.random() < 0.6}
+            if r_ < 0.75:
+                return {"op": "hash_file", "p": [f], "alg": "md5", "info": "dvc"}
+            return {"op": "get", "p": [f], "info": "dvc"} if rng.random() < 0.4 else \
+                {"op": "get_hashes", "route": "build_entries", "alg": "md5", "fs": []}
+
+        blk.append({"op": "get_hashes", "route": "build_dir", "alg": "md5", "fs": [], "dry": rng.random() < 0.6})
+        for _ in range(rng.choice([1, 2, 3])):
+            k = rng.random()
+            c = content(f, same_len=True)
+            if k < 0.5:
+                cur[f] = c
+                blk.append({"op": "replace", "f": f, "c": c, "mt": "same", "target": True})
+            elif k < 0.7:
+                cur[f] = c
+                blk.append({"op": "write", "f": f, "c": c, "mt": "tick"})
+            elif k < 0.85:
+                cur[f] = c
+                blk.append({"op": "replace", "f": f, "c": c, "mt": "tick", "target": True})
+            else:
+                blk.append({"op": "touch", "f": f})
+            blk.append(stage())
+        return blk
+
     while len(ops) < nops:
         r = rng.random()
-        if r < 0.05 and nfiles >= 2:
+        if r < 0.04:
+            ops.extend(link_block())
+        elif r < 0.08 and nfiles >= 2:
             ops.extend(dup_block())
-        elif r < 0.12:
+        elif r < 0.14:
             ops.extend(index_block())
-        elif r < 0.48:
+        elif r < 0.49:
             ops.append(mutation())
         else:
             q = query()
@@ -1052,6 +1095,24 @@ CORPUS = [
         {"op": "get_hashes", "route": "direct", "alg": "sha256", "fs": [3, 2, 0], "pool": {"jobs": 2}},
         {"op": "hash_file", "p": [3], "alg": "sha256", "info": None}, {"op": "get", "p": [2], "info": None},
         {"op": "get_hashes", "route": "direct", "alg": "sha256", "fs": [0, 2, 3]}]},
+    # a symlinked file in the staged directory whose target is replaced ATOMICALLY by same-size content with the
+    # mtime restored (cp -p / rsync -t): of (inode, mtime, size) only the inode of the file whose bytes are hashed
+    # moves - right after the staging walk recorded the row under the walk's (dvc) stat information
+    {"nfiles": 2, "ops": [
+        {"op": "mklink", "f": 0, "c": 1}, {"op": "create", "f": 1, "c": 9},
+        {"op": "get_hashes", "route": "build_dir", "alg": "md5", "fs": [], "dry": False},
+        {"op": "replace", "f": 0, "c": 2, "mt": "same", "target": True},
+        {"op": "get_hashes", "route": "build_dir", "alg": "md5", "fs": [], "dry": True},
+        {"op": "get", "p": [0], "info": "dvc"}, {"op": "hash_file", "p": [0], "alg": "md5", "info": "dvc"},
+        {"op": "replace", "f": 0, "c": 1, "mt": "same", "target": True},
+        {"op": "hash_file", "p": [0], "alg": "md5", "info": "dvc"},
+        {"op": "get_many", "items": [["p", [0]], ["p", [1]]], "infos": [0]},
+        {"op": "replace", "f": 0, "c": 2, "mt": "same", "target": True},
+        {"op": "get_hashes", "route": "build_entries", "alg": "md5", "fs": []},
+        {"op": "get_hashes", "route": "build_dir", "alg": "md5", "fs": [], "dry": False},
+        {"op": "ibuild", "s": "A"}, {"op": "imd5", "s": "A", "alg": "md5"},
+        {"op": "replace", "f": 0, "c": 1, "mt": "same", "target": True},
+        {"op": "ibuild", "s": "B"}, {"op": "iupdate", "s": "B"}, {"op": "imd5", "s": "B", "alg": "md5"}]},
     # a symlinked file in the staged directory: the token of the path is the token of the link's TARGET
     # (info follows links, as _localfs_info does); in-place rewrite / replacement of the target between stagings
     {"nfiles": 2, "ops": [
@@ -1340,7 +1401,299 @@ def nontrivial(flags):
                 or any(f.startswith("foreign:") for f in flags))
 
 
+# --------------------------------------------------------------------------------------
+# stream "checkout": index checkout writes rows into the hash-state cache itself
+# (index/checkout.py _create_files -> state.save_many) - a row writer other than hash_file.  The theorem
+# C13_never_stale needs such rows to be truthful (tick_ok of StSave / SaveForeign); this stream checks that
+# obligation on the real code: after apply(), every cached answer for every path under the workspace equals the
+# cache-less recomputation at the same instant, also where a transfer failed (source object missing) or was
+# skipped (hardlink / symlink onto an existing destination) and an OLDER file is still at the destination.
+
+CO_SIG_FAILED = "C13:stale-hit:checkout-recorded-failed-transfer"
+CO_SIG_SKIPPED = "C13:stale-hit:checkout-recorded-skipped-existing-destination"
+CO_CONTENTS = [b"AAA", b"BBB", b"CCC", b"old", b"OLD", b"a\r\nb", b"a\nb\n", b"DDDD", b"x", b"y", b"a\r\nc"]
+CO_FILE_KEYS = ["a", "b", "c", "d/x", "d/y", "e/f/g"]
+CO_TREE_KEYS = ["t", "d/t2"]
+CO_SUBS = ["p", "q", "r/s", "r/u"]
+
+
+def gen_checkout(ctx):
+    rng = ctx.rng
+    nc = len(CO_CONTENTS)
+    files = {k: rng.randrange(nc) for k in rng.sample(CO_FILE_KEYS, rng.choice([1, 2, 3, 4]))}
+    trees = {}
+    for k in rng.sample(CO_TREE_KEYS, rng.choice([0, 0, 1, 1, 2])):
+        trees[k] = {sub: rng.randrange(nc) for sub in rng.sample(CO_SUBS, rng.choice([1, 2, 3]))}
+    dests = list(files) + [f"{k}/{sub}" for k, t in trees.items() for sub in t]
+    want = {**files, **{f"{k}/{sub}": c for k, t in trees.items() for sub, c in t.items()}}
+    prior = {}
+    for d in dests:
+        if rng.random() < 0.55:
+            # an untracked file already at a target path: other bytes, often of the same size
+            c = rng.randrange(nc)
+            if rng.random() < 0.6:
+                same = [i for i, b in enumerate(CO_CONTENTS) if len(b) == len(CO_CONTENTS[want[d]]) and i != want[d]]
+                c = rng.choice(same) if same else c
+            prior[d] = c
+    for u in rng.sample(["u1", "d/u2", "t/zz"], rng.choice([0, 1, 2])):
+        prior[u] = rng.randrange(nc)
+    used = sorted(set(want.values()))
+    missing = [c for c in used if rng.random() < 0.4]
+    return {"stream": "checkout", "link": rng.choice(["copy", "hardlink", "symlink"]), "update_meta": rng.random() < 0.5,
+            "files": files, "trees": trees, "prior": prior, "missing": missing,
+            "missing_trees": [k for k in trees if rng.random() < 0.12],
+            "old": rng.choice(["none", "none", "ws"]), "delete": rng.random() < 0.3,
+            "post": [d for d in dests if rng.random() < 0.3], "retry": rng.random() < 0.4}
+
+
+CO_CORPUS = [
+    # the repaired defect (/repo 7f1ddd3): compare(None, target) over a workspace with an untracked file at a
+    # target path whose source object is missing from the cache
+    *[{"stream": "checkout", "link": link, "update_meta": um, "files": {"a": 0, "b": 1, "d/x": 2},
+       "trees": {"t": {"p": 7, "r/s": 0}}, "prior": {"b": 4, "t/p": 2, "u1": 3}, "missing": [1, 7],
+       "missing_trees": [], "old": "none", "delete": False, "post": ["b"], "retry": True}
+      for link in ("copy", "hardlink", "symlink") for um in (False, True)],
+    # the repaired defect (/repo 4a7cf27): hardlink / symlink onto an existing destination is skipped silently
+    *[{"stream": "checkout", "link": link, "update_meta": um, "files": {"a": 0, "c": 2},
+       "trees": {"t": {"q": 1}}, "prior": {"a": 3, "t/q": 4}, "missing": [], "missing_trees": [],
+       "old": "none", "delete": False, "post": [], "retry": True}
+      for link in ("hardlink", "symlink") for um in (False, True)],
+]
+
+
+def run_checkout(ctx, case):  # noqa: C901, PLR0912, PLR0915
+    """one checkout history on the real code; returns (problems [(signature, what)], flags)"""
+    from dvc_objects.fs.local import localfs
+
+    from dvc_data.hashfile.hash import hash_file
+    from dvc_data.hashfile.hash_info import HashInfo
+    from dvc_data.hashfile.meta import Meta
+    from dvc_data.hashfile.state import State
+    from dvc_data.index import DataIndex, DataIndexEntry, FileStorage, ObjectStorage
+    from dvc_data.index.build import build_entries
+    from dvc_data.index.checkout import apply, compare
+    from lib import impl
+
+    root = ctx.fresh("c13-co")
+    ws = os.path.join(root, "ws")
+    os.makedirs(ws)
+    link = case["link"]
+    odb = impl.local_odb(os.path.join(root, "cache"), type=[link])
+    os.makedirs(odb.path, exist_ok=True)
+    problems, flags = [], set()
+    clock = [T0]
+
+    def put(path, data):
+        os.makedirs(os.path.dirname(path), exist_ok=True)
+        tmp = os.path.join(root, "tmpw")
+        with open(tmp, "wb") as f:
+            f.write(data)
+        clock[0] += 1_000_000_007
+        os.utime(tmp, ns=(T0, clock[0]))
+        if os.path.lexists(path):
+            os.unlink(path)
+        os.replace(tmp, path)
+
+    def plant(data):
+        oid = impl.md5hex(data)
+        if not os.path.exists(odb.oid_to_path(oid)):
+            impl.plant(odb.path, oid, data)
+        return oid
+
+    def build_target():
+        new = DataIndex()
+        for rel, ci in case["files"].items():
+            k = tuple(rel.split("/"))
+            new[k] = DataIndexEntry(key=k, meta=Meta(), hash_info=HashInfo("md5", plant(CO_CONTENTS[ci])))
+        for rel, tree in case["trees"].items():
+            k = tuple(rel.split("/"))
+            lst = [(sub, plant(CO_CONTENTS[ci])) for sub, ci in tree.items()]
+            doid = impl.dir_oid(lst)
+            if not os.path.exists(odb.oid_to_path(doid)):
+                impl.plant(odb.path, doid, impl.canon_listing(lst))
+            treeoids[rel] = doid
+            new[k] = DataIndexEntry(key=k, meta=Meta(isdir=True), hash_info=HashInfo("md5", doid))
+        new.storage_map.add_cache(ObjectStorage((), odb))
+        new.onerror = lambda entry, exc: flags.add("unloadable-directory-object")
+        return new
+
+    treeoids = {}
+    new = build_target()
+    removed = {}
+    for ci in case["missing"]:
+        pth = odb.oid_to_path(impl.md5hex(CO_CONTENTS[ci]))
+        if os.path.exists(pth):
+            os.chmod(pth, 0o644)
+            os.unlink(pth)
+            removed[pth] = CO_CONTENTS[ci]
+    for rel in case["missing_trees"]:
+        pth = odb.oid_to_path(treeoids[rel])
+        if os.path.exists(pth):
+            with open(pth, "rb") as f:
+                removed[pth] = f.read()
+            os.chmod(pth, 0o644)
+            os.unlink(pth)
+    for rel, ci in case["prior"].items():
+        put(os.path.join(ws, *rel.split("/")), CO_CONTENTS[ci])
+    prior_bytes = {os.path.join(ws, *rel.split("/")): CO_CONTENTS[ci] for rel, ci in case["prior"].items()}
+    st = State(root_dir=ws, tmp_dir=os.path.join(root, "state"))
+    reported = set()
+
+    def onerror(src, dest, exc):
+        reported.add(dest)
+
+    def ws_files():
+        out = {}
+        for dp, _, fns in os.walk(ws):
+            for fn in fns:
+                pth = os.path.join(dp, fn)
+                try:
+                    with open(pth, "rb") as f:
+                        out[pth] = f.read()
+                except OSError:
+                    pass        # a dangling link has no bytes: nothing can be claimed about it
+        return out
+
+    def sig_for(pth, data):
+        if pth in reported:
+            return CO_SIG_FAILED
+        if link != "copy" and prior_bytes.get(pth) == data:
+            return CO_SIG_SKIPPED
+        return CO_SIG_FAILED
+
+    def bad(route, pth, name, val, data):
+        rel = os.path.relpath(pth, ws)
+        problems.append((sig_for(pth, data),
+                         f"after index checkout ({link}, update_meta={case['update_meta']}): {route} answered "
+                         f"{name}:{val} for {rel}, whose bytes {data!r} hash to "
+                         f"{digest(name, data) if name in ALGS else '?'}"
+                         + (" (its transfer was reported through onerror)" if pth in reported else "")))
+
+    def judge(label):
+        cur = ws_files()
+        paths = sorted(cur)
+        ask = paths + [os.path.join(ws, "nosuch")]
+        for pth, meta, hi in st.get_many(ask, localfs, {}):
+            if hi is None and meta is None:
+                continue
+            flags.add("row-served:" + label)
+            if pth not in cur or hi.name not in ALGS or hi.value != digest(hi.name, cur[pth]):
+                bad(f"{label}: State.get_many", pth, hi.name, hi.value, cur.get(pth, b""))
+        for pth in paths:
+            meta, hi = st.get(pth, localfs)
+            if hi is not None and (hi.name not in ALGS or hi.value != digest(hi.name, cur[pth])):
+                bad(f"{label}: State.get", pth, hi.name, hi.value, cur[pth])
+        for alg in ("md5", "md5-dos2unix", "sha256", "md5"):
+            for pth in paths:
+                _, hi = hash_file(pth, localfs, alg, state=st)
+                if hi.name != alg or hi.value != digest(alg, cur[pth]):
+                    bad(f"{label}: hash_file({alg})", pth, hi.name, hi.value, cur[pth])
+        for pth, meta, hi in st.get_many(paths, localfs, {pth: localfs.info(pth) for pth in paths[::2]}):
+            if hi is not None and (hi.name not in ALGS or hi.value != digest(hi.name, cur[pth])):
+                bad(f"{label}: State.get_many (2)", pth, hi.name, hi.value, cur[pth])
+
+    def judge_index(index, label):
+        """update_meta: every (meta, hash) pair left in the index is consistent with the file, or makes no claim"""
+        try:
+            ents = list(index.iteritems())
+        except Exception:  # noqa: BLE001  (an unloadable directory object)
+            return
+        for key, e in ents:
+            hi, m = e.hash_info, e.meta
+            if hi is None or not hi.value or hi.value.endswith(".dir") or m is None or m.isdir:
+                continue
+            pth = os.path.join(ws, *key)
+            try:
+                stt = os.stat(pth)
+                with open(pth, "rb") as f:
+                    data = f.read()
+            except OSError:
+                continue
+            if (m.inode, m.mtime, m.size) == (stt.st_ino, stt.st_mtime, stt.st_size):
+                flags.add("index-meta-is-file-stat")
+                if hi.name not in ALGS or hi.value != digest(hi.name, data):
+                    problems.append((sig_for(pth, data),
+                                     f"{label}: the index pairs {hi.name}:{hi.value} with the stat of "
+                                     f"{os.path.relpath(pth, ws)}, whose bytes {data!r} hash to "
+                                     f"{digest(hi.name, data) if hi.name in ALGS else '?'}"))
+
+    def checkout(index, label):
+        old = None
+        if case["old"] == "ws":
+            old = DataIndex()
+            old.storage_map.add_data(FileStorage(key=(), fs=localfs, path=ws))
+            for entry in build_entries(ws, localfs, compute_hash=True, state=st):
+                old.add(entry)
+        before = ws_files()
+        try:
+            diff = compare(old, index, delete=case["delete"])
+            apply(diff, ws, localfs, onerror=onerror, update_meta=case["update_meta"], state=st, links=[link])
+        except Exception as exc:  # noqa: BLE001  (kind conflicts etc. are C09's business; the cache must still be right)
+            flags.add("apply-raised:" + type(exc).__name__)
+        after = ws_files()
+        for pth in reported:
+            if pth in after and after[pth] == before.get(pth):
+                flags.add("failed-transfer-over-older-file")
+        if link != "copy" and any(pth in prior_bytes and after.get(pth) == prior_bytes[pth] and pth not in reported
+                                  for pth in after):
+            flags.add("linking-skipped-existing-destination")
+        judge(label)
+        if case["update_meta"]:
+            judge_index(index, label)
+
+    try:
+        checkout(new, "checkout")
+        # writes after the checkout: the rows it recorded must not outlive the bytes
+        for rel in case["post"]:
+            pth = os.path.join(ws, *rel.split("/"))
+            if os.path.isfile(pth):
+                with open(pth, "rb") as f:
+                    data = f.read()
+                twin = [b for b in CO_CONTENTS if len(b) == len(data) and b != data]
+                put(pth, twin[0] if twin else data + b"!")
+                flags.add("post-write")
+        if case["post"]:
+            judge("after writes")
+        if case["retry"]:
+            # the missing objects have arrived: the same history again, same State, a fresh target index
+            for pth, data in removed.items():
+                impl.plant(odb.path, os.path.basename(os.path.dirname(pth)) + os.path.basename(pth), data)
+            reported.clear()
+            prior_bytes.update(ws_files())
+            checkout(build_target(), "second checkout")
+    finally:
+        st.close()
+    return problems, flags
+
+
+def run_checkout_stream(ctx):
+    cases = list(CO_CORPUS) + [gen_checkout(ctx) for _ in range(ctx.n(40, 300))]
+    nprob = 0
+    for case in cases:
+        try:
+            problems, flags = run_checkout(ctx, case)
+        except Exception as exc:  # noqa: BLE001
+            problems, flags = [(f"C13:route-raised:checkout:{type(exc).__name__}", f"checkout stream raised {exc!r}")], set()
+        ctx.case(case, bool(flags & {"failed-transfer-over-older-file", "linking-skipped-existing-destination",
+                                     "row-served:checkout", "post-write"}))
+        ctx.count("checkout:cases")
+        ctx.count("checkout:link:" + case["link"])
+        for fl in sorted(flags):
+            ctx.count("checkout:" + fl)
+        seen = set()
+        for sig, what in problems:
+            nprob += 1
+            if sig not in seen:
+                seen.add(sig)
+                ctx.oracle_fail(sig, what, case)
+    ctx.obligation("oracle:checkout-rows-truthful", nprob == 0,
+                   f"{len(cases)} index checkouts with a real State (copy/hardlink/symlink, update_meta on/off, missing "
+                   "sources, pre-existing files): every cached answer (get_many, get, hash_file x md5/md5-dos2unix/sha256) "
+                   "for every path under the workspace equals hashlib on the current bytes; index (meta, hash) pairs consistent")
+
+
 def run(ctx):
+    run_checkout_stream(ctx)
     items = []
     # 1. corpus + stored regression cases
     corpus = list(CORPUS)
@@ -1401,5 +1754,8 @@ def run(ctx):
 
 
 def replay_case(ctx, case):
+    if case.get("stream") == "checkout":
+        problems, flags = run_checkout(ctx, case)
+        return {"problems": problems, "flags": sorted(flags), "violates": bool(problems)}
     inp, exp, problems, flags = run_history(ctx, case)
     return {"problems": problems, "flags": sorted(flags), "violates": bool(problems)}
